@@ -3,7 +3,7 @@
 # repository's own interpreter + deps) and the wheelhouse are used.
 set -e
 cd "$(dirname "$0")"
-V=/verif/.venv
+V=${VERIF_VENV:-/verif/.venv}
 if [ -x "$V/bin/python" ] && "$V/bin/python" -c "import crosshair, z3, cvc5, mistletoe" 2>/dev/null; then
   echo "setup: overlay venv already usable"; exit 0
 fi
